@@ -1589,7 +1589,7 @@ impl EntryRun {
     }
 
     /// one lint step; Ok(Some(what)) = the entry point disagrees with a freshly built one in the same abstract state
-    fn lint(&mut self, w: &mut World, ew: &mut EntryWorld, rep: &mut Report, fe: &str, text: &str) -> Result<Option<String>, String> {
+    fn lint(&mut self, w: &mut World, ew: &mut EntryWorld, rep: &mut Report, fe: &str, text: &str) -> Result<Option<(String, String)>, String> {
         let dict = self.dict.clone();
         let doc = guarded(|| mk_doc(fe, text, &dict)).map_err(|m| format!("parse panicked: {m}"))?;
         let src: Vec<char> = text.chars().collect();
@@ -1632,6 +1632,7 @@ impl EntryRun {
         let infos;
         let impl_lints: Vec<(usize, usize, usize)>;
         let mut diff: Option<String> = None;
+        let mut wasm_core_diff: Option<String> = None;
         match &mut self.imp {
             EntryImpl::Wasm { lt, last_out } => {
                 infos = chunk_infos(w, &doc);
@@ -1653,6 +1654,36 @@ impl EntryRun {
                 if a != fresh {
                     let (_, d) = explain_diff(&a, &fresh, &self.words, "entry_reused_ne_fresh");
                     diff = Some(format!("harper_wasm::Linter ({fe}) and a freshly built one with the same words, configuration and ignore list disagree: {d}"));
+                }
+                // oracle: the answer is a function of (text, language, dictionary, configuration, ignore list) — computed
+                // from harper-core's public pieces WITHOUT harper-wasm's rebuild path (a fresh harper_wasm::Linter goes
+                // through the same import_words -> synchronize_lint_dict as the long-lived one, so a rebuild that is
+                // skipped or done over the wrong dictionary makes "reused" and "fresh" agree with each other): a new
+                // LintGroup over curated + export_words() with the effective configuration, remove_overlaps, the exported
+                // ignore list.  The dictionary is what the Linter itself reports (export_words), not what we fed it.
+                if diff.is_none() {
+                    let ign_json = lt.export_ignored_lints();
+                    let wdict = mk_dict(&lt.export_words());
+                    let (effc, dialect) = (eff.clone(), self.dialect);
+                    let wdoc = guarded(|| mk_doc(fe, text, &wdict)).map_err(|m| format!("parse panicked: {m}"))?;
+                    let core = guarded(|| {
+                        let mut g = LintGroup::new_curated(wdict.clone(), dialect);
+                        g.config = effc;
+                        let mut ls = g.lint(&wdoc);
+                        harper_core::remove_overlaps(&mut ls);
+                        if let Ok(ig) = serde_json::from_str::<harper_core::IgnoredLints>(&ign_json) {
+                            ig.remove_ignored(&mut ls, &wdoc);
+                        }
+                        ls.iter().map(|l| (l.span.start, l.span.end, vis_core("wasm", l))).collect::<Vec<_>>()
+                    })
+                    .map_err(|m| format!("core lint panicked: {m}"))?;
+                    let got: Vec<(usize, usize, String)> = out.iter().map(|l| (l.span().start, l.span().end, vis_wasm(l))).collect();
+                    rep.monitor("wasm_vs_core:lint_steps_compared", 1);
+                    if got != core {
+                        let only_w: Vec<&(usize, usize, String)> = got.iter().filter(|x| !core.contains(x)).collect();
+                        let only_c: Vec<&(usize, usize, String)> = core.iter().filter(|x| !got.contains(x)).collect();
+                        wasm_core_diff = Some(format!("harper_wasm::Linter ({fe}) whose dictionary is curated + {:?} answers differently from a LintGroup built over that dictionary with the same effective configuration and ignore list (harper-core only: new_curated, lint, remove_overlaps, remove_ignored): {} vs {} lints; only wasm: {:?}; only core: {:?}", lt.export_words(), got.len(), core.len(), only_w, only_c));
+                    }
                 }
                 *last_out = out;
             }
@@ -1775,7 +1806,7 @@ impl EntryRun {
             rep.count_n("entry:ls:chunk_lookups", hm.len() as u64);
             rep.count_n("entry:ls:chunk_hits", hm.matches('H').count() as u64);
         }
-        Ok(diff)
+        Ok(diff.map(|d| ("entry_reused_ne_fresh".to_string(), d)).or(wasm_core_diff.map(|d| ("entry_ne_core_same_state".to_string(), d))))
     }
 }
 
@@ -1795,10 +1826,10 @@ fn run_entry(w: &mut World, ew: &mut EntryWorld, rep: &mut Report, h: &EHistory)
                         return;
                     }
                     Ok(None) => {}
-                    Ok(Some(what)) => {
+                    Ok(Some((class, what))) => {
                         let mut failing = h.clone();
                         failing.ops.truncate(i + 1);
-                        rep.fail("entry_reused_ne_fresh", what, failing.to_json());
+                        rep.fail(&class, what, failing.to_json());
                     }
                 }
                 rep.nontrivial(&(h.target.clone(), fe.clone(), text.clone(), i));
